@@ -1,16 +1,101 @@
 /-
-C11 – re-statements of the function-outline ties of source files this property DEPENDS on without being anchored in
-them (bin/mk_dependency_ties.py; hand-run): a source change there is reported for C11 as well.
+C11 – re-statements of the function-outline ties of the source files this property DEPENDS on without being anchored in
+them: the other files of its packages and every package they import (bin/mk_dependency_ties.py; hand-run). A source change
+there is reported for C11 as well.
 -/
+import Uniflow.Props.C09TieLayer
 import Uniflow.Props.C10TieFn2
 import Uniflow.Props.C10TieFn1
+import Uniflow.Props.C13TieFn1
+import Uniflow.Props.C14Tie1
+import Uniflow.Props.C14Tie2
 import Uniflow.Props.C15TieSrc
+import Uniflow.Props.C16Tie5
+import Uniflow.Props.C16Tie3
+import Uniflow.Props.C16Tie6
+import Uniflow.Props.C16Tie1
+import Uniflow.Props.C16Tie2
+import Uniflow.Props.C16Tie4
+import Uniflow.Props.C17Tie
 
+theorem C11.dep_C09_store_source_as_modelled : type_of% C09.src_store_source_as_modelled := C09.src_store_source_as_modelled
+theorem C11.dep_C10_store_cursor_as_modelled : type_of% C10.src_store_cursor_as_modelled := C10.src_store_cursor_as_modelled
 theorem C11.dep_C10_store_helper_as_modelled_1 : type_of% C10.src_store_helper_as_modelled_1 := C10.src_store_helper_as_modelled_1
 theorem C11.dep_C10_store_helper_as_modelled_2 : type_of% C10.src_store_helper_as_modelled_2 := C10.src_store_helper_as_modelled_2
 theorem C11.dep_C10_store_helper_as_modelled_3 : type_of% C10.src_store_helper_as_modelled_3 := C10.src_store_helper_as_modelled_3
-theorem C11.dep_C10_store_cursor_as_modelled : type_of% C10.src_store_cursor_as_modelled := C10.src_store_cursor_as_modelled
+theorem C11.dep_C13_store_stream_as_modelled : type_of% C13.src_store_stream_as_modelled := C13.src_store_stream_as_modelled
+theorem C11.dep_C14_types_binary_as_modelled : type_of% C14.src_types_binary_as_modelled := C14.src_types_binary_as_modelled
+theorem C11.dep_C14_types_boolean_as_modelled : type_of% C14.src_types_boolean_as_modelled := C14.src_types_boolean_as_modelled
+theorem C11.dep_C14_types_buffer_as_modelled : type_of% C14.src_types_buffer_as_modelled := C14.src_types_buffer_as_modelled
+theorem C11.dep_C14_types_error_as_modelled : type_of% C14.src_types_error_as_modelled := C14.src_types_error_as_modelled
+theorem C11.dep_C14_types_float_as_modelled : type_of% C14.src_types_float_as_modelled := C14.src_types_float_as_modelled
+theorem C11.dep_C14_types_integer_as_modelled_1 : type_of% C14.src_types_integer_as_modelled_1 := C14.src_types_integer_as_modelled_1
+theorem C11.dep_C14_types_integer_as_modelled_2 : type_of% C14.src_types_integer_as_modelled_2 := C14.src_types_integer_as_modelled_2
+theorem C11.dep_C14_types_slice_as_modelled_1 : type_of% C14.src_types_slice_as_modelled_1 := C14.src_types_slice_as_modelled_1
+theorem C11.dep_C14_types_slice_as_modelled_2 : type_of% C14.src_types_slice_as_modelled_2 := C14.src_types_slice_as_modelled_2
+theorem C11.dep_C14_types_string_as_modelled : type_of% C14.src_types_string_as_modelled := C14.src_types_string_as_modelled
+theorem C11.dep_C14_types_uinteger_as_modelled_1 : type_of% C14.src_types_uinteger_as_modelled_1 := C14.src_types_uinteger_as_modelled_1
+theorem C11.dep_C14_types_uinteger_as_modelled_2 : type_of% C14.src_types_uinteger_as_modelled_2 := C14.src_types_uinteger_as_modelled_2
+theorem C11.dep_C14_types_value_as_modelled : type_of% C14.src_types_value_as_modelled := C14.src_types_value_as_modelled
 theorem C11.dep_C15_types_map_as_modelled_1 : type_of% C15.src_types_map_as_modelled_1 := C15.src_types_map_as_modelled_1
 theorem C11.dep_C15_types_map_as_modelled_2 : type_of% C15.src_types_map_as_modelled_2 := C15.src_types_map_as_modelled_2
 theorem C11.dep_C15_types_map_as_modelled_3 : type_of% C15.src_types_map_as_modelled_3 := C15.src_types_map_as_modelled_3
 theorem C11.dep_C15_types_map_as_modelled_4 : type_of% C15.src_types_map_as_modelled_4 := C15.src_types_map_as_modelled_4
+theorem C11.dep_C16_encoding_assembler_as_modelled : type_of% C16.src_encoding_assembler_as_modelled := C16.src_encoding_assembler_as_modelled
+theorem C11.dep_C16_encoding_compiler_as_modelled : type_of% C16.src_encoding_compiler_as_modelled := C16.src_encoding_compiler_as_modelled
+theorem C11.dep_C16_encoding_decoder_as_modelled : type_of% C16.src_encoding_decoder_as_modelled := C16.src_encoding_decoder_as_modelled
+theorem C11.dep_C16_encoding_encoder_as_modelled : type_of% C16.src_encoding_encoder_as_modelled := C16.src_encoding_encoder_as_modelled
+theorem C11.dep_C16_encoding_group_as_modelled : type_of% C16.src_encoding_group_as_modelled := C16.src_encoding_group_as_modelled
+theorem C11.dep_C16_types_binary_as_modelled_1 : type_of% C16.src_types_binary_as_modelled_1 := C16.src_types_binary_as_modelled_1
+theorem C11.dep_C16_types_binary_as_modelled_2 : type_of% C16.src_types_binary_as_modelled_2 := C16.src_types_binary_as_modelled_2
+theorem C11.dep_C16_types_boolean_as_modelled : type_of% C16.src_types_boolean_as_modelled := C16.src_types_boolean_as_modelled
+theorem C11.dep_C16_types_buffer_as_modelled_1 : type_of% C16.src_types_buffer_as_modelled_1 := C16.src_types_buffer_as_modelled_1
+theorem C11.dep_C16_types_buffer_as_modelled_2 : type_of% C16.src_types_buffer_as_modelled_2 := C16.src_types_buffer_as_modelled_2
+theorem C11.dep_C16_types_encoding_as_modelled_1 : type_of% C16.src_types_encoding_as_modelled_1 := C16.src_types_encoding_as_modelled_1
+theorem C11.dep_C16_types_encoding_as_modelled_2 : type_of% C16.src_types_encoding_as_modelled_2 := C16.src_types_encoding_as_modelled_2
+theorem C11.dep_C16_types_error_as_modelled : type_of% C16.src_types_error_as_modelled := C16.src_types_error_as_modelled
+theorem C11.dep_C16_types_float_as_modelled_1 : type_of% C16.src_types_float_as_modelled_1 := C16.src_types_float_as_modelled_1
+theorem C11.dep_C16_types_float_as_modelled_2 : type_of% C16.src_types_float_as_modelled_2 := C16.src_types_float_as_modelled_2
+theorem C11.dep_C16_types_integer_as_modelled_1 : type_of% C16.src_types_integer_as_modelled_1 := C16.src_types_integer_as_modelled_1
+theorem C11.dep_C16_types_integer_as_modelled_2 : type_of% C16.src_types_integer_as_modelled_2 := C16.src_types_integer_as_modelled_2
+theorem C11.dep_C16_types_json_as_modelled : type_of% C16.src_types_json_as_modelled := C16.src_types_json_as_modelled
+theorem C11.dep_C16_types_map_as_modelled_1 : type_of% C16.src_types_map_as_modelled_1 := C16.src_types_map_as_modelled_1
+theorem C11.dep_C16_types_map_as_modelled_2 : type_of% C16.src_types_map_as_modelled_2 := C16.src_types_map_as_modelled_2
+theorem C11.dep_C16_types_map_as_modelled_3 : type_of% C16.src_types_map_as_modelled_3 := C16.src_types_map_as_modelled_3
+theorem C11.dep_C16_types_map_as_modelled_4 : type_of% C16.src_types_map_as_modelled_4 := C16.src_types_map_as_modelled_4
+theorem C11.dep_C16_types_slice_as_modelled : type_of% C16.src_types_slice_as_modelled := C16.src_types_slice_as_modelled
+theorem C11.dep_C16_types_string_as_modelled_1 : type_of% C16.src_types_string_as_modelled_1 := C16.src_types_string_as_modelled_1
+theorem C11.dep_C16_types_string_as_modelled_2 : type_of% C16.src_types_string_as_modelled_2 := C16.src_types_string_as_modelled_2
+theorem C11.dep_C16_types_string_as_modelled_3 : type_of% C16.src_types_string_as_modelled_3 := C16.src_types_string_as_modelled_3
+theorem C11.dep_C16_types_time_as_modelled : type_of% C16.src_types_time_as_modelled := C16.src_types_time_as_modelled
+theorem C11.dep_C16_types_uinteger_as_modelled_1 : type_of% C16.src_types_uinteger_as_modelled_1 := C16.src_types_uinteger_as_modelled_1
+theorem C11.dep_C16_types_uinteger_as_modelled_2 : type_of% C16.src_types_uinteger_as_modelled_2 := C16.src_types_uinteger_as_modelled_2
+theorem C11.dep_C17_encoding_assembler_as_modelled : type_of% C17.src_encoding_assembler_as_modelled := C17.src_encoding_assembler_as_modelled
+theorem C11.dep_C17_encoding_compiler_as_modelled : type_of% C17.src_encoding_compiler_as_modelled := C17.src_encoding_compiler_as_modelled
+theorem C11.dep_C17_encoding_decoder_as_modelled : type_of% C17.src_encoding_decoder_as_modelled := C17.src_encoding_decoder_as_modelled
+theorem C11.dep_C17_encoding_encoder_as_modelled : type_of% C17.src_encoding_encoder_as_modelled := C17.src_encoding_encoder_as_modelled
+theorem C11.dep_C17_encoding_group_as_modelled : type_of% C17.src_encoding_group_as_modelled := C17.src_encoding_group_as_modelled
+theorem C11.dep_C17_types_binary_as_modelled_1 : type_of% C17.src_types_binary_as_modelled_1 := C17.src_types_binary_as_modelled_1
+theorem C11.dep_C17_types_binary_as_modelled_2 : type_of% C17.src_types_binary_as_modelled_2 := C17.src_types_binary_as_modelled_2
+theorem C11.dep_C17_types_boolean_as_modelled : type_of% C17.src_types_boolean_as_modelled := C17.src_types_boolean_as_modelled
+theorem C11.dep_C17_types_buffer_as_modelled_1 : type_of% C17.src_types_buffer_as_modelled_1 := C17.src_types_buffer_as_modelled_1
+theorem C11.dep_C17_types_buffer_as_modelled_2 : type_of% C17.src_types_buffer_as_modelled_2 := C17.src_types_buffer_as_modelled_2
+theorem C11.dep_C17_types_encoding_as_modelled_1 : type_of% C17.src_types_encoding_as_modelled_1 := C17.src_types_encoding_as_modelled_1
+theorem C11.dep_C17_types_encoding_as_modelled_2 : type_of% C17.src_types_encoding_as_modelled_2 := C17.src_types_encoding_as_modelled_2
+theorem C11.dep_C17_types_error_as_modelled : type_of% C17.src_types_error_as_modelled := C17.src_types_error_as_modelled
+theorem C11.dep_C17_types_float_as_modelled_1 : type_of% C17.src_types_float_as_modelled_1 := C17.src_types_float_as_modelled_1
+theorem C11.dep_C17_types_float_as_modelled_2 : type_of% C17.src_types_float_as_modelled_2 := C17.src_types_float_as_modelled_2
+theorem C11.dep_C17_types_integer_as_modelled_1 : type_of% C17.src_types_integer_as_modelled_1 := C17.src_types_integer_as_modelled_1
+theorem C11.dep_C17_types_integer_as_modelled_2 : type_of% C17.src_types_integer_as_modelled_2 := C17.src_types_integer_as_modelled_2
+theorem C11.dep_C17_types_json_as_modelled : type_of% C17.src_types_json_as_modelled := C17.src_types_json_as_modelled
+theorem C11.dep_C17_types_map_as_modelled_1 : type_of% C17.src_types_map_as_modelled_1 := C17.src_types_map_as_modelled_1
+theorem C11.dep_C17_types_map_as_modelled_2 : type_of% C17.src_types_map_as_modelled_2 := C17.src_types_map_as_modelled_2
+theorem C11.dep_C17_types_map_as_modelled_3 : type_of% C17.src_types_map_as_modelled_3 := C17.src_types_map_as_modelled_3
+theorem C11.dep_C17_types_map_as_modelled_4 : type_of% C17.src_types_map_as_modelled_4 := C17.src_types_map_as_modelled_4
+theorem C11.dep_C17_types_slice_as_modelled : type_of% C17.src_types_slice_as_modelled := C17.src_types_slice_as_modelled
+theorem C11.dep_C17_types_string_as_modelled_1 : type_of% C17.src_types_string_as_modelled_1 := C17.src_types_string_as_modelled_1
+theorem C11.dep_C17_types_string_as_modelled_2 : type_of% C17.src_types_string_as_modelled_2 := C17.src_types_string_as_modelled_2
+theorem C11.dep_C17_types_string_as_modelled_3 : type_of% C17.src_types_string_as_modelled_3 := C17.src_types_string_as_modelled_3
+theorem C11.dep_C17_types_time_as_modelled : type_of% C17.src_types_time_as_modelled := C17.src_types_time_as_modelled
+theorem C11.dep_C17_types_uinteger_as_modelled_1 : type_of% C17.src_types_uinteger_as_modelled_1 := C17.src_types_uinteger_as_modelled_1
+theorem C11.dep_C17_types_uinteger_as_modelled_2 : type_of% C17.src_types_uinteger_as_modelled_2 := C17.src_types_uinteger_as_modelled_2
